@@ -145,9 +145,25 @@ theorem resolveB_mono {T T' : Tab} (h : Ext T T') (b : SBody) (cb : CBody)
         rw [resolveG_mono h _ g' h1, resolveSs_mono h _ ss' h2, resolveE_mono h _ r' h3]
         simpa [h1, h2, h3] using hc
 
+theorem constOk_mono {T T' : Tab} (h : Ext T T') (e : KExpr) (hc : constOk T e = true) : constOk T' e = true := by
+  unfold constOk at *
+  rw [List.all_eq_true] at hc ⊢
+  intro y hy
+  have := hc y hy
+  cases hl : lookup y T.syms with
+  | none => simp [hl] at this
+  | some v =>
+    rw [h.1 y v hl]
+    simpa [hl] using this
+
 theorem compileItem_mono {T T' : Tab} (h : Ext T T') (nf : Nat) (it : Item) (r : List CBody × List (Nat × Act))
     (hc : compileItem T nf it = some r) : compileItem T' nf it = some r := by
   cases it with
+  | const x e last =>
+    simp only [compileItem] at hc ⊢
+    split at hc
+    · rename_i hk; rw [if_pos (constOk_mono h e hk)]; exact hc
+    · cases hc
   | var x e =>
     simp only [compileItem] at hc ⊢
     cases hl : lookup x T.syms with
@@ -209,6 +225,7 @@ def SymOk (nf nv : Nat) : Sym → Prop
   | .fvar i f => i < nv ∧ f < nf
   | .fn f => f < nf
   | .typ => True
+  | .const _ => True
 
 /-- every binding of the scope is below the bounds -/
 def TabBelow (nf nv : Nat) (T : Tab) : Prop :=
@@ -236,8 +253,9 @@ theorem resolveE_closed {nf nv : Nat} {T : Tab} (h : TabBelow nf nv T) : ∀ (e 
     | some v =>
       have := h.1 x v hl
       cases v <;> simp [hl] at hc
-      subst hc
-      simpa [closedE, SymOk] using this
+      all_goals subst hc
+      · simpa [closedE, SymOk] using this
+      · rfl
   | bin op a b iha ihb =>
     intro ce hc
     simp only [resolveE] at hc
